@@ -231,4 +231,20 @@ theorem model_touch_condition (w : World) (r : Nat) (l : LObj) (h : w.lists[r]? 
   rw [h]
   by_cases hc : (l.obsolete && !l.warned) = true <;> simp [hc]
 
+/-! ### evaluation order (the `let`-inlined terms do not say when an assigned call runs; the regenerated call order does) -/
+
+/-- `@obsoletes`: the wrapped method is CALLED FIRST, the chain is marked afterwards — so the method's own `self._new(...)`
+    still sees a receiver that is not obsolete (`Eval.C17.obsoletes_order_matters` shows the order is observable), and a
+    method that raises marks nobody. -/
+theorem obsoletes_calls_the_method_first :
+    deco_obsoletes_wrapper_call_order = ["function", "self._mark_obsolete"] := rfl
+
+/-- `@new_from_generator`: the method (a generator function: the call only creates the generator) and then `_new`. -/
+theorem new_from_generator_call_order :
+    deco_new_from_generator_wrapper_call_order = ["function", "self._new"] := rfl
+
+/-- `_mark_obsolete` makes no call but the test and the recursive call on the predecessor. -/
+theorem mark_obsolete_call_order :
+    ListOfDicts_mark_obsolete_call_order = ["isinstance", "self._predecessor._mark_obsolete"] := rfl
+
 end DI.Tie.C17
